@@ -81,3 +81,10 @@ package policer
 //@ func (*Policer).processObject
 //@   property C26
 //@   loop 1 iteration [tombstone_wanted_on_every_node_of_its_own_ec_list] newRepRules[len(repRules) + rangeindex] == uint(len(nn[len(repRules) + rangeindex]))
+
+// ---- C22 (callers of the node order): the node list a recreated EC part is replicated to
+// is NodeSequenceForPart applied to the sorted nodes: position i holds the node the sequence
+// names i-th (so the part starts at the node with its own index).
+//@ func (*Policer).recreateECPart
+//@   property C22
+//@   loop 1 iteration [node_list_follows_the_sequence] nodes[rangeindex] == sortedNodes[seq[rangeindex]]
